@@ -74,9 +74,9 @@ def run(ck):
     run_traces(ck, "w18-scenario", "ParTrace_strict.cfg", dict(scenario="w18", engine="parallel", procs=4, gated=True, policy="lowkey"),
                key_extra={"class": "primary_scheduled_by_same_round_secondary"})
     # 3. gated schedules on TLC-enumerated + random programs
-    given = sample_programs(ck, 120 if q else 1500)
+    given = sample_programs(ck, 120 if q else 1000)
     run_traces(ck, "gated", "ParTrace_parallel.cfg", dict(engine="parallel", procs_cycle=True, gated=True, policy="random",
                                                           given=given, programs=15 if q else 150, max_events=30))
     # 4. free-running schedules
     run_traces(ck, "free", "ParTrace_parallel.cfg", dict(engine="parallel", procs_cycle=True, gated=False, spin=20,
-                                                         programs=60 if q else 1500, max_events=120))
+                                                         programs=60 if q else 800, max_events=120))
